@@ -29,7 +29,7 @@ def kinds(prog) -> str:
     def walk(blk):
         for s in blk:
             out.add(s["t"])
-            for k in ("a", "b", "e", "h", "f"):
+            for k in ("a", "b", "e", "h", "f", "o"):
                 if k in s and isinstance(s[k], list):
                     walk(s[k])
     walk(prog)
